@@ -65,14 +65,14 @@ def run(v, tier):
     v.assumptions += ['completeness is only demanded for substitution-free patterns (as the property states)']
     pats = [t for t in u['U1'] if subst_free(t)] + [x['p'] for x in u['NU1'] if subst_free(x['p'])]
     gn = funcs.Gen(pi2v.SEED + 13, ids=(0, 1, 2), notation=True)
-    pats += [t for t in (gn.term(3) for _ in range(300 if quick else 5000)) if subst_free(t)]
+    pats += [t for t in (gn.term(3) for _ in range(300 if quick else 15000)) if subst_free(t)]
     vals = [pi2v.EV(0), pi2v.EV(1), pi2v.SV(0), pi2v.SYM(0), M(0), M(1), pi2v.IMP(pi2v.EV(0), pi2v.SV(1)),
             pi2v.EX(0, pi2v.EV(0)), N['neg'](pi2v.EV(1)), N['bot'], pi2v.MU(0, pi2v.SV(0)), pi2v.APP(pi2v.SYM(0), pi2v.EV(1))]
     eqlists = []     # (eqs, seed)
     # instances BY CONSTRUCTION (spec->code: the instance is computed by the implementation's instantiate,
     # judged by TLC's own matcher, so a wrong instantiate cannot hide a wrong match)
     inst_cmds, inst_meta = [], []
-    for p in rng.sample(pats, min(len(pats), 500 if quick else 6000)):
+    for p in rng.sample(pats, min(len(pats), 500 if quick else 20000)):
         th = [[i, rng.choice(vals)] for i in (0, 1, 2)]
         inst_cmds.append({'fn': 'instantiate', 'p': p, 'd': th}); inst_meta.append((p, th))
     for (p, th), r in zip(inst_meta, py_run(inst_cmds)):
@@ -82,7 +82,7 @@ def run(v, tier):
             eqlists.append(([[p, r['res']]], [th[k]]))                       # consistent seed
             eqlists.append(([[p, r['res']]], [[th[k][0], pi2v.SV(1)]]))      # (probably) conflicting seed
     # arbitrary pairs (mostly non-matching) and ground pairs whose only solution is the empty substitution
-    for _ in range(1500 if quick else 20000):
+    for _ in range(1500 if quick else 60000):
         eqlists.append(([[rng.choice(pats), rng.choice(pats)]], []))
     ground = [pi2v.EV(1), pi2v.SV(0), pi2v.SYM(0), pi2v.IMP(pi2v.EV(0), pi2v.EV(1)), N['bot'], N['top'], N['neg'](pi2v.EV(0)),
               pi2v.EX(1, pi2v.EV(1)), pi2v.MU(0, pi2v.SV(0))]
